@@ -2462,6 +2462,392 @@ zoo_oracle!(
     lookup
 );
 
+// ---- C14 / C10 / C13 over compressed / remainders backends other than `Vec` ----
+//
+// Which instantiations the crate's trait bounds allow (checked by compiling this module):
+//  * compressed side of `from_binary` / `from_compressed` (bound: `ReadWords<Word, Stack>`;
+//    the remainders side must be `Default + WriteWords`): `Cursor<Word, Vec<Word>>`,
+//    `Cursor<Word, &[Word]>`, `FallibleIteratorReadWords`, any user-defined
+//    `ReadWords<Word, Stack>` – all compile.
+//  * remainders side of `from_remainders` (bound: `ReadWords<Word, Stack>`; the compressed side
+//    must be `Default + WriteWords`): the same four kinds compile.
+//  * NOT usable at all: `InfallibleIteratorReadWords`.  Its constructor `new` demands
+//    `Iter: Iterator<Item = Result<Word, ReadError>>` (copied from the fallible adapter) while
+//    its `ReadWords<Word, _>` impl demands `Iter: Iterator<Item = Word>`, so for an iterator over
+//    plain words `new` does not type-check, and for an iterator over `Result`s the adapter
+//    reads "words" of type `Result<…>`, which no coder accepts (E0271 when tried here).
+//  * NOT possible through the public constructors: a `Cursor` (or any bounded sink) as the
+//    *remainders* backend of `from_binary` / `from_compressed`, or as the *compressed* backend
+//    of `from_remainders` – `Cursor` has no `Default` impl; the iterator adapters cannot be
+//    sinks at all (no `WriteWords`).  A bounded remainders sink is therefore exercised through
+//    the `constriction_verif` hook `verif_from_parts` only.
+mod bk {
+    use super::*;
+    use constriction::backends::{Cursor, FallibleIteratorReadWords, ReadWords, WriteWords};
+    use constriction::Stack;
+
+    /// how conservative `maybe_exhausted()` of the test source is
+    #[derive(Clone, Copy, Debug, PartialEq)]
+    pub enum Hint {
+        /// the trait's default: always `true`
+        Always,
+        /// `true` at block boundaries ("my buffer is empty") and when really exhausted
+        Block(usize),
+        Exact,
+    }
+
+    #[derive(Debug, PartialEq, Eq)]
+    pub struct TestReadError;
+
+    /// user-defined stack source: conservative hint, one injected read error
+    pub struct TestSource<W> {
+        /// top of the stack last
+        pub stack: Vec<W>,
+        pub consumed: usize,
+        pub calls: usize,
+        pub hint: Hint,
+        /// the `read()` call with this index fails (once, nothing is consumed)
+        pub fail_at: Option<usize>,
+    }
+
+    impl<W: Clone> ReadWords<W, Stack> for TestSource<W> {
+        type ReadError = TestReadError;
+        fn read(&mut self) -> Result<Option<W>, TestReadError> {
+            let k = self.calls;
+            self.calls += 1;
+            if self.fail_at == Some(k) {
+                return Err(TestReadError);
+            }
+            let w = self.stack.pop();
+            if w.is_some() {
+                self.consumed += 1;
+            }
+            Ok(w)
+        }
+        fn maybe_exhausted(&self) -> bool {
+            match self.hint {
+                Hint::Always => true,
+                Hint::Block(b) => self.stack.is_empty() || self.consumed % b == 0,
+                Hint::Exact => self.stack.is_empty(),
+            }
+        }
+    }
+
+    pub enum Outcome {
+        /// symbols, index at which the data ran out, number of (retried) backend read errors
+        Done(Vec<usize>, Option<usize>, usize),
+        /// the remainders sink refused a write while decoding symbol `i` (documented backend error)
+        WriteError(Vec<usize>, usize),
+        Bad(String),
+    }
+
+    pub fn run_decodes<W, S, Pr, CB, RB, const P: usize>(
+        coder: &mut ChainCoder<W, S, CB, RB, P>,
+        models: &[TableModel<Pr, P>],
+        rep: &mut Report,
+    ) -> Outcome
+    where
+        W: BitArray + Into<S> + AsPrimitive<Pr>,
+        S: BitArray + AsPrimitive<W>,
+        Pr: BitArray + Into<W>,
+        CB: ReadWords<W, Stack>,
+        RB: WriteWords<W>,
+    {
+        let mut syms = Vec::new();
+        let mut read_errors = 0;
+        for (i, m) in models.iter().enumerate() {
+            let mut tries = 0;
+            loop {
+                rep.eval("C10");
+                rep.eval("C20");
+                match guarded(|| coder.decode_symbol(m)) {
+                    Err(class) => return Outcome::Bad(format!("{} while decoding symbol {}", class, i)),
+                    Ok(Ok(s)) => {
+                        syms.push(s);
+                        break;
+                    }
+                    Ok(Err(CoderError::Frontend(DecoderFrontendError::OutOfCompressedData))) => {
+                        return Outcome::Done(syms, Some(i), read_errors)
+                    }
+                    Ok(Err(CoderError::Backend(BackendError::Compressed(_)))) => {
+                        // documented backend error, raised before any state change: retry
+                        read_errors += 1;
+                        tries += 1;
+                        if tries > 1 {
+                            return Outcome::Bad(format!("repeated backend read error at symbol {}", i));
+                        }
+                    }
+                    Ok(Err(CoderError::Backend(BackendError::Remainders(_)))) => return Outcome::WriteError(syms, i),
+                }
+            }
+        }
+        Outcome::Done(syms, None, read_errors)
+    }
+
+    fn drain<W, B: ReadWords<W, Stack>>(b: &mut B) -> Vec<W> {
+        // top first
+        let mut out = Vec::new();
+        for _ in 0..1_000_000 {
+            match b.read() {
+                Ok(Some(w)) => out.push(w),
+                Ok(None) => break,
+                Err(_) => continue,
+            }
+        }
+        out
+    }
+
+    pub fn case<W, S, Pr, const P: usize>(rng: &mut Rng, rep: &mut Report)
+    where
+        W: BitArray + Into<S> + AsPrimitive<Pr>,
+        S: BitArray + AsPrimitive<W>,
+        Pr: BitArray + Into<W>,
+    {
+        let (w, s, b, p) = (W::BITS as u32, S::BITS as u32, Pr::BITS as u32, P as u32);
+        let from_bin = rng.chance(1, 2);
+        let n = (rng.next() % 24) as usize;
+        let head_words = ((s - w - p) + w - 1) / w + (!from_bin) as u32;
+        let need = head_words as usize + (n * p as usize + w as usize - 1) / w as usize;
+        let len = match rng.next() % 4 {
+            0 => rng.below(need as u128 + 2) as usize,
+            _ => need + (rng.next() % 3) as usize,
+        };
+        let style = rng.next() % 6;
+        let mut data: Vec<u128> = (0..len).map(|_| if style == 0 { 0 } else { rng.below(pow2(w)) }).collect();
+        if !from_bin {
+            match data.last_mut() {
+                Some(l) => {
+                    if *l == 0 {
+                        *l = 1;
+                    }
+                }
+                None => data.push(1),
+            }
+        }
+        let cdfs: Vec<Vec<u128>> = (0..n).map(|_| gen_cdf(rng, p)).collect();
+        let models: Vec<TableModel<Pr, P>> = cdfs.iter().map(|c| TableModel::new(c.clone())).collect();
+        let line = {
+            let mut t = format!("chain {:x} {:x} {:x} | {} {}", w, s, p, if from_bin { "binary" } else { "compressed" }, show_list(data.clone()));
+            for c in &cdfs {
+                t.push_str(&format!(" | dec {:x} {:x} {}", p, b, show_list(c.clone())));
+            }
+            t
+        };
+        let dw: Vec<W> = words::<W>(&data);
+        // ---- the Vec-backed twin
+        type Twin<W, S, const P: usize> = ChainCoder<W, S, Vec<W>, Vec<W>, P>;
+        let mk_twin = |d: Vec<W>| if from_bin { Twin::<W, S, P>::from_binary(d) } else { Twin::<W, S, P>::from_compressed(d) };
+        let mut twin = match mk_twin(dw.clone()) {
+            Ok(t) => t,
+            Err(_) => return,
+        };
+        let stack0: Vec<u128> = match twin.clone().into_remainders() {
+            Ok((pre, _)) => unwords(&pre),
+            Err(_) => return,
+        };
+        let (tsyms, tout) = match run_decodes(&mut twin, &models, rep) {
+            Outcome::Done(sy, out, 0) => (sy, out),
+            _ => {
+                rep.fail("C10", format!("{} => the Vec-backed coder does not decode", line));
+                return;
+            }
+        };
+        // independent chunk reference
+        let chunks = reference_chunks(stack0.len(), w, &vec![p; n]);
+        let expect: Vec<usize> = chunks.iter().zip(&cdfs).map(|(c, cdf)| find(cdf, chunk_value(&stack0, c))).collect();
+        rep.eval("C14");
+        if tsyms != expect || tout != (if chunks.len() < n { Some(chunks.len()) } else { None }) {
+            rep.fail("C14", format!("{} => symbols {:?} end {:?} but the chunks of the data give {:?}", line, tsyms, tout, expect));
+            return;
+        }
+        let (tpre, tsuf) = twin.into_remainders().unwrap();
+
+        // compares one alternative compressed backend with the twin
+        macro_rules! check_compressed {
+            ($tag:expr, $backend:expr, $min_read_errors:expr) => {{
+                let tag: String = $tag;
+                rep.count(&format!("C14.backend.compressed.{}", tag));
+                rep.eval("C14");
+                rep.eval("C10");
+                rep.eval("C13");
+                let backend = $backend;
+                let made = if from_bin { ChainCoder::<W, S, _, Vec<W>, P>::from_binary(backend) } else { ChainCoder::<W, S, _, Vec<W>, P>::from_compressed(backend) };
+                match made {
+                    Err(CoderError::Backend(_)) if $min_read_errors > 0 => rep.count(&format!("C14.backend.compressed.{}.ctor_read_error", tag)),
+                    Err(_) => rep.fail("C14", format!("backend={} :: {} => the constructor fails although it succeeds on a Vec", tag, line)),
+                    Ok(mut coder) => match run_decodes(&mut coder, &models, rep) {
+                        Outcome::Bad(e) => {
+                            rep.fail("C14", format!("backend={} :: {} => {}", tag, line, e));
+                            rep.fail("C10", format!("backend={} :: {} => {}", tag, line, e));
+                        }
+                        Outcome::WriteError(..) => rep.fail("C14", format!("backend={} :: {} => write error from a Vec sink", tag, line)),
+                        Outcome::Done(sy, out, _errs) => {
+                            if sy != tsyms || out != tout {
+                                let msg = format!(
+                                    "backend={} :: {} => symbols {:?}, out of data at {:?}; the Vec-backed coder (and the chunks of the data) give {:?}, out of data at {:?}",
+                                    tag, line, sy, out, tsyms, tout
+                                );
+                                rep.fail("C14", msg.clone());
+                                rep.fail("C10", msg.clone());
+                                rep.fail("C13", msg);
+                            } else {
+                                match coder.into_remainders() {
+                                    Ok((mut left, suf)) => {
+                                        let mut rest = drain::<W, _>(&mut left);
+                                        rest.reverse();
+                                        if suf != tsuf || rest != tpre {
+                                            rep.fail("C13", format!("backend={} :: {} | intorem => exported words differ from the Vec-backed coder's", tag, line));
+                                        }
+                                    }
+                                    Err(_) => rep.fail("C13", format!("backend={} :: {} | intorem => error", tag, line)),
+                                }
+                            }
+                        }
+                    },
+                }
+            }};
+        }
+        check_compressed!("cursor_vec".into(), Cursor::new_at_write_end(dw.clone()), 0);
+        check_compressed!("cursor_slice".into(), Cursor::new_at_write_end(&dw[..]), 0);
+        check_compressed!("iter_fallible_adapter".into(), FallibleIteratorReadWords::new(dw.clone().into_iter().rev().map(Ok::<W, TestReadError>)), 0);
+        for hint in [Hint::Always, Hint::Block(1 + (rng.next() % 3) as usize), Hint::Exact] {
+            let fail_at = if rng.chance(1, 2) { Some(rng.below(len as u128 + 2) as usize) } else { None };
+            let tag = format!(
+                "custom.hint_{}{}",
+                match hint {
+                    Hint::Always => "always".to_string(),
+                    Hint::Block(_) => "block".to_string(),
+                    Hint::Exact => "exact".to_string(),
+                },
+                if fail_at.is_some() { ".read_error" } else { "" }
+            );
+            check_compressed!(tag, TestSource { stack: dw.clone(), consumed: 0, calls: 0, hint, fail_at }, fail_at.map_or(0, |_| 1));
+        }
+
+        // ---- remainders side: a bounded `Cursor` sink (only through the hook: no `Default`)
+        {
+            let cap = (rng.next() % 4) as usize;
+            let tag = "remainders.cursor_bounded";
+            rep.count(&format!("C14.backend.{}", tag));
+            rep.eval("C10");
+            if let Ok(t0) = mk_twin(dw.clone()) {
+                let (comp, _rems, heads) = t0.verif_into_parts();
+                let sink = Cursor::new_at_write_beginning(vec![W::zero(); cap]);
+                let mut coder = ChainCoder::<W, S, Vec<W>, Cursor<W, Vec<W>>, P>::verif_from_parts(comp, sink, heads);
+                match run_decodes(&mut coder, &models, rep) {
+                    Outcome::Bad(e) => rep.fail("C10", format!("backend={} cap={} :: {} => {}", tag, cap, line, e)),
+                    Outcome::Done(sy, out, _) => {
+                        if sy != tsyms || out != tout {
+                            rep.fail("C14", format!("backend={} cap={} :: {} => symbols {:?} end {:?} differ from the Vec-backed coder's", tag, cap, line, sy, out));
+                        }
+                    }
+                    Outcome::WriteError(sy, i) => {
+                        // the documented `CoderError::Backend(BackendError::Remainders(OutOfSpace))`
+                        rep.count("C14.backend.remainders.cursor_bounded.write_error");
+                        if sy[..] != tsyms[..i.min(tsyms.len())] {
+                            rep.fail("C14", format!("backend={} cap={} :: {} => symbols before the write error {:?} differ from the Vec-backed coder's", tag, cap, line, sy));
+                        }
+                    }
+                }
+            }
+        }
+
+        // ---- re-encoding with the remainders read from other backends (`from_remainders`)
+        let tsuf_u: Vec<u128> = unwords(&tsuf);
+        let twin_final: Option<Vec<W>> = (|| {
+            let mut e = Twin::<W, S, P>::from_remainders(tsuf.clone()).ok()?;
+            for (sym, m) in tsyms.iter().zip(&models).rev() {
+                e.encode_symbol(*sym, m).ok()?;
+            }
+            let (a, b) = if from_bin { e.into_binary().ok()? } else { e.into_compressed().ok()? };
+            let mut v = a;
+            v.extend(b);
+            Some(v)
+        })();
+        let twin_final = match twin_final {
+            Some(v) => v,
+            None => {
+                rep.fail("C13", format!("{} | intorem | reimport 1 | undoall => the Vec-backed coder fails", line));
+                return;
+            }
+        };
+        macro_rules! check_remainders {
+            ($tag:expr, $backend:expr) => {{
+                let tag: String = $tag;
+                rep.count(&format!("C13.backend.remainders.{}", tag));
+                rep.eval("C13");
+                match ChainCoder::<W, S, Vec<W>, _, P>::from_remainders($backend) {
+                    Err(CoderError::Backend(_)) => rep.count(&format!("C13.backend.remainders.{}.ctor_read_error", tag)),
+                    Err(_) => rep.fail("C13", format!("backend={} :: {} | intorem (suffix {}) => from_remainders fails although it succeeds on a Vec", tag, line, show_list(tsuf_u.clone()))),
+                    Ok(mut e) => {
+                        let mut ok = true;
+                        for (sym, m) in tsyms.iter().zip(&models).rev() {
+                            let mut tries = 0;
+                            loop {
+                                match guarded(|| e.encode_symbol(*sym, m)) {
+                                    Ok(Ok(())) => break,
+                                    Ok(Err(CoderError::Backend(BackendError::Remainders(_)))) if tries == 0 => tries += 1,
+                                    other => {
+                                        rep.fail("C13", format!("backend={} :: {} | intorem | reimport 1 | undoall => re-encoding fails: {:?}", tag, line, other.map(|r| r.is_ok())));
+                                        ok = false;
+                                        break;
+                                    }
+                                }
+                            }
+                            if !ok {
+                                break;
+                            }
+                        }
+                        if ok {
+                            let fin = if from_bin { e.into_binary().map_err(|_| ()) } else { e.into_compressed().map_err(|_| ()) };
+                            match fin {
+                                Ok((mut left, comp)) => {
+                                    let mut v = drain::<W, _>(&mut left);
+                                    v.reverse();
+                                    v.extend(comp);
+                                    if v != twin_final {
+                                        rep.fail("C13", format!("backend={} :: {} | intorem | reimport 1 | undoall | final => recovered words differ from the Vec-backed coder's", tag, line));
+                                    }
+                                }
+                                Err(()) => rep.fail("C13", format!("backend={} :: {} | intorem | reimport 1 | undoall | final => error", tag, line)),
+                            }
+                        }
+                    }
+                }
+            }};
+        }
+        check_remainders!("cursor_vec".into(), Cursor::new_at_write_end(tsuf.clone()));
+        check_remainders!("cursor_slice".into(), Cursor::new_at_write_end(&tsuf[..]));
+        check_remainders!("iter_fallible_adapter".into(), FallibleIteratorReadWords::new(tsuf.clone().into_iter().rev().map(Ok::<W, TestReadError>)));
+        for hint in [Hint::Always, Hint::Block(2), Hint::Exact] {
+            let fail_at = if rng.chance(1, 2) { Some(rng.below(tsuf.len() as u128 + 1) as usize) } else { None };
+            let tag = format!(
+                "custom.hint_{}{}",
+                match hint {
+                    Hint::Always => "always",
+                    Hint::Block(_) => "block",
+                    Hint::Exact => "exact",
+                },
+                if fail_at.is_some() { ".read_error" } else { "" }
+            );
+            check_remainders!(tag, TestSource { stack: tsuf.clone(), consumed: 0, calls: 0, hint, fail_at });
+        }
+    }
+}
+
+fn oracle_backends(rng: &mut Rng, iters: usize, rep: &mut Report) {
+    for _ in 0..iters {
+        bk::case::<u8, u16, u8, 3>(rng, rep);
+        bk::case::<u8, u16, u8, 8>(rng, rep);
+        bk::case::<u8, u32, u8, 5>(rng, rep);
+        bk::case::<u16, u32, u8, 4>(rng, rep);
+        bk::case::<u16, u32, u16, 12>(rng, rep);
+        bk::case::<u32, u64, u16, 12>(rng, rep);
+        bk::case::<u32, u64, u32, 24>(rng, rep);
+        bk::case::<u64, u128, u32, 32>(rng, rep);
+    }
+}
+
 pub fn oracle(rng: &mut Rng, tier: &str, rep: &mut Report) {
     check_tables();
     let iters = if tier == "thorough" { 60000 } else { 4000 };
@@ -2480,4 +2866,5 @@ pub fn oracle(rng: &mut Rng, tier: &str, rep: &mut Report) {
     }
     oracle_zoo_default(rng, iters / 2, rep);
     oracle_zoo_small(rng, iters / 2, rep);
+    oracle_backends(rng, iters / 8, rep);
 }
